@@ -57,6 +57,7 @@ def mem_instances(tier, fam='mem', safety=False):
 def instances(build, tier, seed):
     L = exprlib.expr_instances(tier, seed, 'ONLY_RT', 'select')
     L += exprlib.cast_instances(tier, seed, 'ONLY_RT', 'select')
+    L += exprlib.ptrcmp_instances(tier, seed, 'ONLY_RT', 'select')
     L += mem_instances(tier)
     import c07
     L += c07.funcinit_instances(tier, fam='mem.autoinit')      # automatic-object initialisation (shared with C07)
